@@ -88,7 +88,15 @@ private:
 protected:
   inline void impl_create_sandbox() {}
 
-  inline void impl_destroy_sandbox() {}
+  inline void impl_destroy_sandbox()
+  {
+    // entry points handed out to this incarnation die with it
+    RLBOX_ACQUIRE_UNIQUE_GUARD(lock, callback_mutex);
+    for (uint32_t i = 0; i < MAX_CALLBACKS; i++) {
+      callback_unique_keys[i] = nullptr;
+      callbacks[i] = nullptr;
+    }
+  }
 
   inline void impl_reset_sandbox() {}
 
